@@ -252,20 +252,29 @@ func (s *Sim) Go(name string, fn func()) {
 	s.live++
 	s.unlock()
 	go func() {
-		id := goid()
-		s.lock()
-		s.taskSet(id, name)
-		s.unlock()
-		defer func() {
-			s.lock()
-			s.taskDel(id)
-			s.live--
-			s.unlock()
-			s.signal()
-		}()
+		id := s.taskBegin(name)
+		defer s.taskEnd(id)
 		s.Yield("start", "")
 		fn()
 	}()
+}
+
+//go:norace
+func (s *Sim) taskBegin(name string) int64 {
+	id := goid()
+	s.lock()
+	s.taskSet(id, name)
+	s.unlock()
+	return id
+}
+
+//go:norace
+func (s *Sim) taskEnd(id int64) {
+	s.lock()
+	s.taskDel(id)
+	s.live--
+	s.unlock()
+	s.signal()
 }
 
 // Stopped reports whether the controller has ended the run.
@@ -421,7 +430,7 @@ func (s *Sim) Run() {
 				}
 			}
 			sort.Strings(s.InFlight)
-			s.appendLog(fmt.Sprintf("SIM-TIME-LIMIT in-flight=%v", s.InFlight))
+			s.appendLog("SIM-TIME-LIMIT in-flight=[" + strings.Join(s.InFlight, " ") + "]")
 			s.unlock()
 			return
 		}
@@ -501,7 +510,7 @@ func (s *Sim) Run() {
 		if timeOpt {
 			d := stepMenu[s.Tape.Draw(len(stepMenu))]
 			s.stats["time-advance"]++
-			s.appendLog(fmt.Sprintf("step %d: advance %v", s.steps, d))
+			s.appendLog("step " + strconv.Itoa(s.steps) + ": advance " + d.String())
 			s.steps++
 			s.unlock()
 			raceOff()
@@ -514,7 +523,7 @@ func (s *Sim) Run() {
 		if idx >= len(s.parked) {
 			o := extra[idx-len(s.parked)]
 			s.last = o.Key
-			s.appendLog(fmt.Sprintf("step %d: do %s", s.steps, o.Key))
+			s.appendLog("step " + strconv.Itoa(s.steps) + ": do " + o.Key)
 			s.steps++
 			parts := strings.SplitN(o.Key, ":", 3)
 			if len(parts) >= 2 {
@@ -531,7 +540,7 @@ func (s *Sim) Run() {
 		}
 		s.stats["park:"+p.pt]++
 		s.last = p.key
-		s.appendLog(fmt.Sprintf("step %d: run %s @%s", s.steps, p.key, p.pt))
+		s.appendLog("step " + strconv.Itoa(s.steps) + ": run " + p.key + " @" + p.pt)
 		s.steps++
 		s.unlock()
 		raceOff()
